@@ -24,13 +24,28 @@ use n0_future::boxed::BoxStream;
 use super::Rng;
 
 pub const SIM_TRANSPORT_ID: u64 = 0x53_494d;
+/// A second, independent custom transport ("plane B") on the same simulated network.
+pub const SIM_TRANSPORT_ID_B: u64 = 0x53_494e;
+
+pub fn slot_addr_on(tid: u64, slot: u8) -> CustomAddr {
+    CustomAddr::from_parts(tid, &[slot])
+}
+
+/// Node key of (transport id, slot): plane B nodes live at slot + 128.
+pub fn node_of(tid: u64, slot: u8) -> u8 {
+    if tid == SIM_TRANSPORT_ID_B { slot | 0x80 } else { slot }
+}
+
+fn node_addr(node: u8) -> CustomAddr {
+    if node & 0x80 != 0 { slot_addr_on(SIM_TRANSPORT_ID_B, node & 0x7f) } else { slot_addr_on(SIM_TRANSPORT_ID, node) }
+}
 
 pub fn slot_addr(slot: u8) -> CustomAddr {
     CustomAddr::from_parts(SIM_TRANSPORT_ID, &[slot])
 }
 
 fn addr_slot(a: &CustomAddr) -> Option<u8> {
-    if a.id() != SIM_TRANSPORT_ID {
+    if a.id() != SIM_TRANSPORT_ID && a.id() != SIM_TRANSPORT_ID_B {
         return None;
     }
     a.data().first().copied()
@@ -44,6 +59,11 @@ pub struct NetCfg {
     pub reorder_pm: u32,
     /// maximum one-way delay in ms (0 = immediate delivery)
     pub delay_max_ms: u64,
+    /// per-mille of sender calls that fail with an I/O error / report would-block
+    #[serde(default)]
+    pub send_err_pm: u32,
+    #[serde(default)]
+    pub send_pending_pm: u32,
 }
 
 #[derive(Debug, Default)]
@@ -65,13 +85,7 @@ struct Node {
 pub const TX_COST: Duration = Duration::from_micros(100);
 pub const TX_PER_MS: u32 = 16;
 
-/// Advances the paused tokio clock from synchronous code: the first poll of `time::advance`
-/// moves the clock, the rest of that future (a yield) is not needed.
-fn charge_clock(d: Duration) {
-    let mut fut = std::pin::pin!(tokio::time::advance(d));
-    let mut cx = Context::from_waker(Waker::noop());
-    let _ = std::future::Future::poll(fut.as_mut(), &mut cx);
-}
+use super::rt::charge_clock;
 
 #[derive(Debug, Clone)]
 pub struct PacketLog {
@@ -95,6 +109,8 @@ pub struct NetInner {
     pub lookup_calls: u64,
     /// how often a sender hit the link capacity
     pub backpressure: u64,
+    /// every call of a custom sender: (sender's transport id, destination transport id, from slot, to slot, outcome)
+    pub sender_calls: Vec<(u64, u64, u8, u8, &'static str)>,
 }
 
 #[derive(Debug, Clone)]
@@ -112,12 +128,24 @@ impl SimNet {
             faults_enabled: true,
             lookup_calls: 0,
             backpressure: 0,
+            sender_calls: vec![],
         })))
     }
 
     pub fn transport(&self, slot: u8) -> Arc<SimTransport> {
-        self.0.lock().unwrap().nodes.entry(slot).or_default();
-        Arc::new(SimTransport { slot, net: self.clone(), addrs: n0_watcher::Watchable::new(vec![slot_addr(slot)]) })
+        self.transport_on(SIM_TRANSPORT_ID, slot)
+    }
+
+    /// A custom transport with the given transport id at `slot` (slots of different transport ids
+    /// are different nodes of the network: node key = slot + 128 for plane B).
+    pub fn transport_on(&self, tid: u64, slot: u8) -> Arc<SimTransport> {
+        let node = node_of(tid, slot);
+        self.0.lock().unwrap().nodes.entry(node).or_default();
+        Arc::new(SimTransport { slot: node, tid, net: self.clone(), addrs: n0_watcher::Watchable::new(vec![slot_addr_on(tid, slot)]) })
+    }
+
+    pub fn sender_calls(&self) -> Vec<(u64, u64, u8, u8, &'static str)> {
+        self.0.lock().unwrap().sender_calls.clone()
     }
 
     /// The address lookup service of this network: endpoint id -> the slot the harness routed it to.
@@ -268,6 +296,7 @@ impl SimNet {
 #[derive(Debug)]
 pub struct SimTransport {
     slot: u8,
+    tid: u64,
     net: SimNet,
     addrs: n0_watcher::Watchable<Vec<CustomAddr>>,
 }
@@ -275,13 +304,14 @@ pub struct SimTransport {
 impl CustomTransport for SimTransport {
     fn bind(&self) -> io::Result<Box<dyn CustomEndpoint>> {
         self.net.0.lock().unwrap().nodes.entry(self.slot).or_default().bound = true;
-        Ok(Box::new(SimEndpoint { slot: self.slot, net: self.net.clone(), addrs: self.addrs.clone() }))
+        Ok(Box::new(SimEndpoint { slot: self.slot, tid: self.tid, net: self.net.clone(), addrs: self.addrs.clone() }))
     }
 }
 
 #[derive(Debug)]
 struct SimEndpoint {
     slot: u8,
+    tid: u64,
     net: SimNet,
     addrs: n0_watcher::Watchable<Vec<CustomAddr>>,
 }
@@ -289,19 +319,40 @@ struct SimEndpoint {
 #[derive(Debug)]
 struct SimSender {
     slot: u8,
+    tid: u64,
     net: SimNet,
 }
 
 impl CustomSender for SimSender {
     fn is_valid_send_addr(&self, addr: &CustomAddr) -> bool {
-        addr.id() == SIM_TRANSPORT_ID
+        addr.id() == self.tid
     }
 
     fn poll_send(&self, cx: &mut Context, dst: &CustomAddr, _src: Option<&CustomAddr>, transmit: &Transmit<'_>) -> Poll<io::Result<()>> {
-        let Some(to) = addr_slot(dst) else {
+        let Some(to) = addr_slot(dst).map(|s| node_of(dst.id(), s)) else {
             return Poll::Ready(Err(io::Error::other("sim: bad address")));
         };
-        let _ = cx;
+        // injected sender faults (transient): I/O error or would-block
+        let fault = {
+            let mut g = self.net.0.lock().unwrap();
+            let f = if g.faults_enabled && g.cfg.send_err_pm > 0 && g.rng.below(1000) < g.cfg.send_err_pm as u64 {
+                "io-error"
+            } else if g.faults_enabled && g.cfg.send_pending_pm > 0 && g.rng.below(1000) < g.cfg.send_pending_pm as u64 {
+                "would-block"
+            } else {
+                "sent"
+            };
+            g.sender_calls.push((self.tid, dst.id(), self.slot, to, f));
+            f
+        };
+        match fault {
+            "io-error" => return Poll::Ready(Err(io::Error::other("sim: injected send error"))),
+            "would-block" => {
+                cx.waker().wake_by_ref();
+                return Poll::Pending;
+            }
+            _ => {}
+        }
         let seg = transmit.segment_size.unwrap_or(transmit.contents.len()).max(1);
         for chunk in transmit.contents.chunks(seg) {
             self.net.send(self.slot, to, Bytes::copy_from_slice(chunk));
@@ -316,7 +367,7 @@ impl CustomEndpoint for SimEndpoint {
     }
 
     fn create_sender(&self) -> Arc<dyn CustomSender> {
-        Arc::new(SimSender { slot: self.slot, net: self.net.clone() })
+        Arc::new(SimSender { slot: self.slot, tid: self.tid, net: self.net.clone() })
     }
 
     fn poll_recv(&mut self, cx: &mut Context, bufs: &mut [io::IoSliceMut<'_>], metas: &mut [noq_udp::RecvMeta], recv_infos: &mut [RecvInfo]) -> Poll<io::Result<usize>> {
@@ -331,7 +382,7 @@ impl CustomEndpoint for SimEndpoint {
             bufs[n][..data.len()].copy_from_slice(&data);
             metas[n].len = data.len();
             metas[n].stride = data.len();
-            recv_infos[n] = RecvInfo::new(slot_addr(from), Some(slot_addr(self.slot)));
+            recv_infos[n] = RecvInfo::new(node_addr(from), Some(node_addr(self.slot)));
             n += 1;
         }
         if n > 0 {
@@ -356,7 +407,7 @@ impl AddressLookup for SimNetLookup {
         g.lookup_calls += 1;
         let slots = g.routes.get(&endpoint_id).cloned()?;
         let item = Item::new(
-            EndpointInfo::from_parts(endpoint_id, EndpointData::new(slots.iter().map(|s| TransportAddr::Custom(slot_addr(*s))).collect::<Vec<_>>())),
+            EndpointInfo::from_parts(endpoint_id, EndpointData::new(slots.iter().map(|s| TransportAddr::Custom(node_addr(*s))).collect::<Vec<_>>())),
             "simnet",
             None,
         );
